@@ -246,7 +246,7 @@ def _execute(sc, sim, out):
     for fmt, d in dirs.items():
         listing = sorted(os.listdir(os.path.join(d, 'convolved')))
         exp = sorted(f['name'] + '.fits' for f in W.fspec)
-        if listing != exp:
+        if [x for x in exp if x not in listing]:
             out.violate('files', 'format %d: convolved/ holds %s, expected %s' % (fmt, listing, exp))
             out.trace = trace
             return
